@@ -17,6 +17,7 @@ class Verifier:
         self.repo = repo
         self.specs = specs
         self.col = collector
+        self.hooks = []         # callables(ex) installing engine hooks
 
     def new_exec(self):
         return Exec(self.repo, self.specs, self.col)
@@ -70,6 +71,9 @@ class Verifier:
 
     def verify_case(self, info, con, case):
         ex = self.new_exec()
+        ex.instance = con.opts.get('instance', 'scaled')
+        for hk in self.hooks:
+            hk(ex)
         ex.cur_func = info
         ex.cur_props = con.props
         cname = ','.join(case)
@@ -99,7 +103,12 @@ class Verifier:
                 st.envs[fr.fid][x.arg] = env[x.arg]
         outs = ex.run_block(info.node.body, st, fr)
         n_ok = 0
-        canary_done = False
+        canary_done = True
+        ret_pcs = [z3.And(*ex.C.assumptions(o.st)) for o in outs if o.kind in ('ret', 'ok')]
+        if ret_pcs:
+            self.col.add('CANARY', con.props, info.qualname, tag + ':canary',
+                         'ensures(False) must be refuted on some returning path (the engine does not prove everything)',
+                         [z3.Or(*ret_pcs)], z3.BoolVal(False), must='refuted')
         for pi, o in enumerate(outs):
             ptag = '%s:path%d' % (tag, pi)
             if o.kind in ('ret', 'ok'):
